@@ -591,3 +591,82 @@ Proof.
     cbn in I. repeat (destruct I as [I|I]; [discriminate|]). exact I.
   - rewrite zlen_app, zlen_cons, zlen_app, zlen_cons. change (zlen RTSP10) with 8. lia.
 Qed.
+
+(* ---------- responses ---------- *)
+Lemma itoa_3 n : 100 <= n <= 999 -> zlen (itoa n) = 3.
+Proof.
+  intros H.
+  assert (S : forallb (fun k => zlen (itoa (Z.of_nat k)) =? 3) (seq 100 900) = true) by (vm_compute; reflexivity).
+  rewrite forallb_forall in S. specialize (S (Z.to_nat n)).
+  rewrite Z2Nat.id in S by lia. apply Z.eqb_eq, S, in_seq. lia.
+Qed.
+
+Lemma digits_no c s : forallb is_digit s = true -> is_digit c = false -> ~ In c s.
+Proof. intros H Hc I. rewrite forallb_forall in H. specialize (H c I). congruence. Qed.
+
+Lemma status_line_parse code text :
+  100 <= code <= 999 ->
+  parse_status_line (RTSP10 ++ SP :: itoa code ++ SP :: text) = Ok (RTSP10, code, itoa code ++ SP :: text) [].
+Proof.
+  intros Hc. destruct (itoa_ok code ltac:(lia)) as (D & NE & V). pose proof (itoa_3 code Hc) as L3.
+  unfold parse_status_line.
+  assert (NS : ~ In SP RTSP10) by (cbn; intros I; repeat (destruct I as [I|I]; [discriminate|]); exact I).
+  rewrite index_byte_app by exact NS. change (zlen RTSP10 <? 0) with false. cbv iota.
+  rewrite slice_prefix, slice_suffix1.
+  assert (TL : trim_left (Z.eqb SP) (itoa code ++ SP :: text) = itoa code ++ SP :: text).
+  { destruct (itoa code) as [|d ds]; [congruence|]. cbn [app trim_left].
+    cbn [forallb] in D. apply andb_true_iff in D as [Hd _]. unfold is_digit, SP in *.
+    replace (32 =? d) with false by lia. reflexivity. }
+  rewrite TL.
+  assert (ND : ~ In SP (itoa code)) by (apply digits_no; [exact D|reflexivity]).
+  rewrite index_byte_app by exact ND. rewrite L3. change (3 <? 0) with false. cbv iota.
+  rewrite <- L3, slice_prefix, L3. change (negb (3 =? 3)) with false. cbv iota.
+  rewrite parse_dec_itoa by lia. replace (code <? 0) with false by lia. reflexivity.
+Qed.
+
+Theorem response_roundtrip p rest :
+  response_wf p = true ->
+  read_response (write_response p ++ rest) = Ok (norm_response p) rest.
+Proof.
+  unfold response_wf. rewrite !andb_true_iff.
+  intros [[[[[[C1 C2] NL] NC] L] Wh] B].
+  destruct (hdr_wf_parts _ Wh) as [Wf Wc]. apply Z.leb_le in C1, C2, L, B.
+  destruct (itoa_ok (p_code p) ltac:(lia)) as (D & NE & V). pose proof (itoa_3 (p_code p) ltac:(lia)) as L3.
+  unfold read_response, write_response.
+  replace ((RTSP10 ++ SP :: itoa (p_code p) ++ SP :: status_text p ++ CRLF ++
+            write_header (set_cl (p_hdr p) (p_body p)) ++ p_body p) ++ rest)
+    with ((RTSP10 ++ SP :: itoa (p_code p) ++ SP :: status_text p) ++ CRLF ++
+          (write_header (set_cl (p_hdr p) (p_body p)) ++ (p_body p ++ rest))).
+  2:{ repeat (rewrite <- app_assoc || rewrite <- app_comm_cons). reflexivity. }
+  rewrite read_line_crlf.
+  - rewrite status_line_parse by lia.
+    rewrite read_header_write by assumption.
+    rewrite read_body_exact; [reflexivity|apply content_length_norm; assumption|exact B].
+  - intros I. apply in_app_or in I as [I|[I|I]].
+    + cbn in I. repeat (destruct I as [I|I]; [discriminate|]). exact I.
+    + discriminate.
+    + apply in_app_or in I as [I|[I|I]]; [revert I; apply digits_no; [exact D|reflexivity]|discriminate|].
+      apply no_byte_In in NL. contradiction.
+  - rewrite zlen_app, zlen_cons, zlen_app, zlen_cons, L3. change (zlen RTSP10) with 8. lia.
+Qed.
+
+(* ---------- interleaved frames ---------- *)
+Theorem frame_roundtrip cfg ch data rest :
+  pack_wf cfg ch data = true ->
+  read_packet cfg (write_packet cfg ch data ++ rest) = Ok (EvPack ch data) rest.
+Proof.
+  unfold pack_wf. rewrite !andb_true_iff. intros [[[[C0 C4] L] W] Hh].
+  apply Z.leb_le in C0, L. apply Z.ltb_lt in C4.
+  unfold write_packet. destruct (nth_error cfg (Z.to_nat ch)) as [w|]; [|discriminate].
+  rewrite !andb_true_iff in W. destruct W as [[W0 W255] F]. apply Z.leb_le in W0, W255.
+  destruct (find_chan cfg w 0) as [i|] eqn:FC; [|discriminate]. apply Z.eqb_eq in F. subst i.
+  replace ((w <? 0) || (w >? 255)) with false by lia.
+  pose proof (zlen_nonneg data). rewrite Z.mod_small by lia.
+  cbn [app]. unfold read_packet, read_packet_gen.
+  change (negb (DOLLAR =? DOLLAR)) with false. cbv iota.
+  replace (zlen data / 256 * 256 + zlen data mod 256) with (zlen data) by lia.
+  rewrite zlen_app. pose proof (zlen_nonneg rest). replace (zlen data + zlen rest <? zlen data) with false by lia.
+  rewrite take_n_firstn, firstn_zlen_app, skipn_zlen_app, FC. rewrite (Z.mod_small ch 256) by lia.
+  destruct ((ch =? 0) || (ch =? 2)); [|reflexivity].
+  destruct (rtp_hdr_check data); try discriminate. reflexivity.
+Qed.
